@@ -86,6 +86,24 @@ pub mod q {
         std::mem::forget((v, u));
     }
 
+    /// A vector grown by `push` from `with_capacity` takes `len * w` bits
+    /// rounded up to whole words (at least one), like one built by `new`.
+    #[kani::proof]
+    #[kani::unwind(6)]
+    pub fn bitfieldvec_grown_space() {
+        let w: usize = kani::any();
+        kani::assume(w == 0 || w == 1 || w == 33 || w == 64);
+        let mut v = BitFieldVec::<usize>::with_capacity(w, 0);
+        v.push(0);
+        v.push(0);
+        v.push(0);
+        let words = (3 * w).div_ceil(64).max(1);
+        assert_eq!(v.as_slice().len(), words);
+        kani::cover!(w == 0);
+        kani::cover!(w == 33);
+        std::mem::forget(v);
+    }
+
     /// Narrow word types.
     #[kani::proof]
     #[kani::unwind(4)]
